@@ -140,8 +140,10 @@ def script_of(case):
     # px == 3: a complete feasible answer plus two alternative solutions (written to <sol:stub>N.sol)
     # px == 5, 6: mip:round=7 / 2 with a non-integral value of an integer variable (the rounding step runs between the backend's
     #   report and the .sol file; whatever it does to values and message, the code written is the code the backend reported)
+    # px == 7: sol:chk:fail with the violating answer of px == 2: the run ends with the dedicated code 150-159 exactly when the
+    #   solution check looks at the answer (every class except "infeasible"), else with the reported code
     # px == 4: IIS requested (alg:iisfind=1); the scripted IIS run reports the status code+1000 -> folded to IIS_CODE(code)
-    return {'code': code, 'msg': 'scripted result', 'altsols': 2 if px == 3 else 0, 'iis_code': iis_code(code) if px == 4 else 'none', 'iis': 'ramp' if px == 4 else 'none', 'x': (X_VIOL if px == 2 else '1,0.5' if px in ROUND_OF else X_SPEC) if px else 'none', 'y': Y_SPEC if py else 'none',
+    return {'code': code, 'msg': 'scripted result', 'altsols': 2 if px == 3 else 0, 'iis_code': iis_code(code) if px == 4 else 'none', 'iis': 'ramp' if px == 4 else 'none', 'x': (X_VIOL if px in (2, 7) else '1,0.5' if px in ROUND_OF else X_SPEC) if px else 'none', 'y': Y_SPEC if py else 'none',
             'obj': OBJ_SPEC if po else 'none', 'ismip': 1 if px in ROUND_OF else mip, 'rays': 1}
 
 
@@ -161,7 +163,8 @@ def observe(binary, workdir, nl, case):
     r = vdriverlib.run(binary, workdir, nl_text=model_nl_int() if case[1] in ROUND_OF else nl, script=script_of(case),
                        env_opts={'vdriver_options': 'sol:stub=%s' % os.path.join(workdir, 'alt')} if alt else
                        {'vdriver_options': 'alg:iisfind=1'} if case[1] == 4 else
-                       {'vdriver_options': 'mip:round=%d' % ROUND_OF[case[1]]} if case[1] in ROUND_OF else None)
+                       {'vdriver_options': 'mip:round=%d' % ROUND_OF[case[1]]} if case[1] in ROUND_OF else
+                       {'vdriver_options': 'sol:chk:fail'} if case[1] == 7 else None)
     if case[1] == 4: o_calls = [c.get('op') for c in (r.get('dump') or {}).get('calls', [])]
     o = {'rc': r['rc'], 'sol': None, 'err': r['err'][-300:]}
     if case[1] == 4: o['iis_run'] = 'ComputeIIS' in o_calls
@@ -193,6 +196,11 @@ def judge(orc, case, o):
         return [('driver failed', {'rc': o['rc'], 'sol': o['sol'], 'err': o.get('err'), 'parse': o.get('parse_error')})]
     want_code = code
     if px == 4 and o.get('iis_run'): want_code = iis_code(code)       # the IIS run reported a new status: that is the code to write
+    if px == 7:
+        checked = orc.cat(code) != 'infeasible'
+        if checked != (150 <= (o['code'] if o['code'] is not None else -1) <= 159) or (not checked and o['code'] != code):
+            f.append(('sol:chk:fail code', {'sol_code': o['code'], 'reported': code, 'solution_check_applies': checked}))
+        return f
     if o['code'] != want_code:
         f.append(('.sol solve code differs from reported code', {'sol_code': o['code'], 'reported': want_code}))
     if px == 4:
@@ -370,6 +378,7 @@ def _main(chk, tier, binary):
     cases += [(code, 3, 1, 1, mip) for mip in mips for code in range(LO, HI + 1)]
     cases += [(code, 4, 1, 1, mip) for mip in mips for code in range(LO, HI + 1)]
     cases += [(code, px, 1, 1, 1) for px in sorted(ROUND_OF) for code in range(LO, HI + 1)]
+    cases += [(code, 7, 1, 1, mip) for mip in mips for code in range(LO, HI + 1)]
     nw = vcheck.NCPU
     jobs = [(binary, i, nl, cases[i::nw], ranges) for i in range(nw)]
     with multiprocessing.get_context('fork').Pool(nw) as pool:
@@ -410,6 +419,7 @@ def _main(chk, tier, binary):
            'infeasibility ray returned': 'C10 .dunbdd ray returned for a code outside the infeasible / undecided classes: %s',
            'infeasibility ray missing': 'C10 .dunbdd ray not returned for the infeasible class: %s',
            'alternative solution code': 'C10 alternative-solution .sol files (sol:stub) do not carry the reported code for %s',
+           'sol:chk:fail code': 'C10 sol:chk:fail with a violating answer: the .sol code is not 150-159 where the solution check applies / not the reported code where it does not, for %s',
            'solution check skipped': 'C10 violating answer not reported by the solution check (treated as infeasible class) for %s',
            'solution check ran': 'C10 solution check ran on an answer of the infeasible class (sol:chk:infeas=0) for %s',
            'solution check reports a feasible answer': 'C10 solution check reports a feasible answer for %s'}
